@@ -261,6 +261,12 @@ static void nx_choice(void)
 		int st;
 		if (!nx_enabled(k))
 			continue;
+		/* the deadline also ends the loop over the operations (an editor that hangs on every operation
+		 * costs one horizon each); too many hangs end the exploration as well */
+		if (nv_expired_now() || nx_sh->hangs > 40) {
+			nx_sh->cut = 1;
+			break;
+		}
 		if (nx_depth == nx_shard_level) {
 			long idx = nx_depth == 0 ? k : (long) nx_hist[nx_depth - 1] * nops + k;
 			if (idx % nx_shard_div != nx_shard_mod)
